@@ -11,7 +11,8 @@
    The per-evaluation alignment clause (value i belongs to individual i, best = min) is about EVQESelection, not about
    the loop: theorem C10_selection_alignment (Props/C10.v); here it is checked on every recorded real run by the
    oracle (harness/vlib/solvercases.py: oracle_evqe_c05). *)
-From QV Require Import Common.Base Solver.Loop Solver.Ledger Solver.Ledger_proofs Solver.Loop_proofs Solver.SolverCheck.
+From QV Require Import Common.Base Solver.Loop Solver.Ledger Solver.Ledger_proofs Solver.Loop_proofs Solver.Shape_proofs
+  Solver.SolverCheck.
 From Coq Require Import QArith.
 
 Section C05.
@@ -58,6 +59,16 @@ Section C05.
         /\ (sr_generations _ _ _ _ _ res <= length (sr_circuit_evaluations _ _ _ _ _ res))%nat).
   Proof. exact (ledger_shape Ind R Pop Op W Init Dist AuxEv AV best_value best_ind). Qed.
 
+  (* the same without the hypothesis, for every world whose operator applications report what the EVQE operators
+     report (nothing / one count / one count then one result: Ledger.evqe_shape): one entry per evaluated generation
+     plus at most one trailing entry, each entry the sum of what was reported in its generation *)
+  Theorem C05_ledger_shape_evqe : forall (cfg : config) (wd : world) fuel tr res,
+    (forall op w pop, evqe_shape R (fst (fst (w_apply _ _ _ _ _ _ _ _ _ wd op w pop)))) ->
+    solve cfg wd fuel = (tr, Ok res) ->
+    sr_circuit_evaluations _ _ _ _ _ res = ledger_spec R (events_of tr)
+    /\ (sr_generations _ _ _ _ _ res <= length (sr_circuit_evaluations _ _ _ _ _ res) <= sr_generations _ _ _ _ _ res + 1)%nat.
+  Proof. exact (ledger_shape_evqe Ind R Pop Op W Init Dist AuxEv AV best_value best_ind). Qed.
+
   (* eigenstate and aux values are computed from the returned best individual (behind the initial state) *)
   Theorem C05_result_assembly : forall (cfg : config) (wd : world) fuel tr res,
     solve cfg wd fuel = (tr, Ok res) ->
@@ -73,6 +84,7 @@ Print Assumptions C05_eigenvalue_is_min.
 Print Assumptions C05_generations.
 Print Assumptions C05_ledger_sum.
 Print Assumptions C05_ledger_shape.
+Print Assumptions C05_ledger_shape_evqe.
 Print Assumptions C05_result_assembly.
 
 (* Without `counted` the shape fails: an application that reports two results and only then a count leaves a ledger
